@@ -186,6 +186,8 @@ def run(ctx):
         C03.c03a(ctx, tu)    # ... and is_forbidden (base and every override) must read it: max == 0
         from rules import C04
         C04.c04b(ctx, tu)    # (C01.e) a forbid stops shadowing when its lifetime ends: unlinked on every path
+        from rules import C14
+        C14.c14g(ctx, tu)    # a newer forbid keeps shadowing an older allow after the mock was moved: list order kept
         units.append({"unit": tu.name, "functions": len(tu.fns)})
     n = c07e(ctx)
     ctx.floor("C07.e compile-time cases", n, 30)
